@@ -335,9 +335,15 @@ class Repo:
                 kind = "class" if isinstance(n, ast.ClassDef) else "func"
                 qual = f"{prefix}.{n.name}"
                 if qual in self.defs:
-                    # redefinition (e.g. overloads, try/except alternatives): keep last
-                    # real implementation; overload stubs come first.
-                    pass
+                    # redefinition (overload stubs, singledispatch registrations named `_`,
+                    # try/except alternatives): the earlier definition stays indexed under
+                    # a numbered name; the plain name denotes the last one, as in Python.
+                    k = 1
+                    while f"{qual}#{k}" in self.defs:
+                        k += 1
+                    old = self.defs[qual]
+                    old.qual = f"{qual}#{k}"
+                    self.defs[old.qual] = old
                 d = Def(qual, n.name, n, kind, m, parent)
                 self.defs[qual] = d
                 self._node_def[id(n)] = d
@@ -698,6 +704,10 @@ class Repo:
             return [Target("ext", f"<literal>.{e.attr}")]
         # method-name dispatch over repo classes
         cands = self.methods_by_name.get(e.attr, [])
+        if e.attr.startswith("__") and e.attr.endswith("__"):
+            # explicit dunder call on a receiver of unknown type: same treatment as the
+            # operator form (x[key], x + y), which is not a call edge either
+            cands = []
         if cands:
             return [Target("def", c) for c in cands] + [Target("method?", e.attr)]
         return [Target("method", e.attr)]
